@@ -555,6 +555,10 @@ func c04PartB(r *core.Run, serverBin string) {
 							}
 							fb, _ := io.ReadAll(rs.Body)
 							rs.Body.Close()
+							if rs.StatusCode != 200 {
+								// the proxy listed this ID itself a moment ago: it must be able to serve the request
+								r.Violate("C04:listed-id-not-fetchable", fmt.Sprintf("%d clients / %d pollers: the proxy listed request ID %s but answered the fetch for it with %d", c.clients, c.pollers, id, rs.StatusCode), nil, nil)
+							}
 							m, _ := rawhttp.ReadRequest(bufio.NewReader(bytes.NewReader(fb)))
 							tok := ""
 							if m != nil {
